@@ -17,7 +17,7 @@ ASSUME = ["at most 4 tracked stanzas in flight plus the client's own initial pre
 
 def run(tier):
     if tier == "thorough":
-        cfgs = [dict(name="classic", config={}, depth=8, dev=2, deadline=1500)]
+        cfgs = [dict(name="classic", config={}, depth=9, dev=2, deadline=2400)]
         return bfs_check(PROP, HARNESS, tier, cfgs, RULE, ASSUME, crosscheck_depth=3,
                          witness_required=["retransmitted", "resumed", "new_session_with_sm", "acks_from_client", "drops"])
     cfgs = [dict(name="classic", config={}, depth=7, dev=2, deadline=400)]
